@@ -382,9 +382,20 @@ def _d2_dbcheck(ctx):
     if len(unpack) != 1:
         ctx.broken("D2: sanity_check does not unpack _check_sanity_arch_db's result once")
     got = [U(e) for e in unpack[0].targets[0].elts]
-    ctx.check(got == ret_names, "D2", "returned tuple unpacked in the same name order", sc.where(unpack[0]),
+    # positions decide: the caller's name for each of the three lists is the one at the list's position in the returned tuple
+    caller_name = {}
+    for lst in pairs:
+        if lst in ret_names and len(got) == len(ret_names):
+            caller_name[lst] = got[ret_names.index(lst)]
+    ctx.check(len(got) == len(ret_names) and len(caller_name) == 3 and len(set(caller_name.values())) == 3, "D2",
+              "the three lists are returned and unpacked position by position", sc.where(unpack[0]),
               "returned (%s) but unpacked as (%s)" % (", ".join(ret_names), ", ".join(got)), sc.qname,
               "unpack order")
+    # a caller that keeps the callee's names must keep them in place (a swap of two like-named lists is the classic slip)
+    for lst, nm in caller_name.items():
+        if nm in pairs and nm != lst:
+            ctx.bad("D2", "unpack of " + lst, sc.where(unpack[0]), "the list %s of _check_sanity_arch_db is received under the name %s"
+                    % (lst, nm), sc.qname, "unpack swap " + lst)
     rep = ctx.func("db_interface._get_sanity_report")
     calls = C.calls_to(sc.node, "_get_sanity_report")
     if len(calls) != 1:
@@ -421,7 +432,7 @@ def _d2_dbcheck(ctx):
         for phrase, lst in want.items():
             if phrase in text:
                 seen.add(phrase)
-                prm = [p for p, a in argmap.items() if a == lst]
+                prm = [p for p, a in argmap.items() if a == caller_name.get(lst, lst)]
                 if not prm:
                     ctx.bad("D2", "report argument for " + lst, sc.where(calls[0]),
                             "%s is not passed to _get_sanity_report" % lst, sc.qname, "argument " + lst)
@@ -516,14 +527,15 @@ def _r3_uops_shape(ctx):
                 # same-function resolution dominating the reader
                 cfg = C.cfg_of(f)
                 ok = False
+                fl = C.flow_of(f)
                 for iff in [x for x in ast.walk(f.node) if isinstance(x, ast.If)]:
-                    b = pm.match("isinstance(M_x, dict)", iff.test)
+                    b = pm.match("isinstance(M_x, dict)", fl.subst(iff.test))
                     if b is None or not U(b["M_x"]).endswith(".port_uops"):
                         continue
                     resolved = [s for s in ast.walk(iff) if isinstance(s, ast.Assign)
                                 and any(isinstance(tt, ast.Attribute) and tt.attr == "port_uops" for tt in s.targets)
                                 and s in iff.body
-                                and pm.match("list(M_y.values())[0]", s.value) is not None]
+                                and pm.match("list(M_y.values())[0]", fl.subst(s.value)) is not None]
                     if resolved and cfg.dominates(iff, n) and C.enclosing_loop(iff) is C.enclosing_loop(n):
                         ok = True
                 if ok:
